@@ -3,6 +3,7 @@ package rules
 import (
 	"fmt"
 	"go/ast"
+	"go/token"
 	"go/types"
 	"golang.org/x/tools/go/cfg"
 	"strings"
@@ -412,7 +413,7 @@ func C09() *check.Property {
 		Title:    "Context flows from Subscribe through every callback and is never nil",
 		Patterns: cat(CorePatterns, PluginPkgs, []string{PromPkg}, RatePkgs),
 		Scope:    []string{ro},
-		Rules:    []check.Rule{ruleCtxProvenance(), ruleNoFreshContext(), ruleCtxPairing(), ruleDeadContextStore(), ruleSlotCtxArgument(), ruleCallbackCtxUsed(), ruleContextRewriterUniform()},
+		Rules:    []check.Rule{ruleCtxProvenance(), ruleNoFreshContext(), ruleCtxPairing(), ruleDeadContextStore(), ruleSlotCtxArgument(), ruleCallbackCtxUsed(), ruleContextRewriterUniform(), ruleSlotCtxStable(), ruleTerminalCtxCaptured(), ruleCtxTupleWhole()},
 		Explanation: "Static def-use classification of every context operand. Sinks: the context argument of each upstream SubscribeWithContext and of each Next/Error/Complete notification in every subscribe closure " +
 			"(through inlined helpers and local closures), plus the same calls in the subjects, the subscriber and the connectable observable. Each operand is traced through assignments, tuple fields (lo.T2), slices/channels of tuples, " +
 			"atomic.Value, struct fields, closure and helper parameters to its origins; allowed origins are the subscriber context, the slot context, user-callback results and context.With* of those; Background/TODO/nil and " +
@@ -420,7 +421,7 @@ func C09() *check.Property {
 		NotDecided:  "what user callbacks return; whether a context-typed value stored by an allowed origin is the *right* one among several allowed ones (e.g. last vs. first item's context).",
 		Assumptions: []string{"the upstream source itself honours the property (induction over the pipeline)", "zero-value exemptions listed in the checker (4 symbols) were argued by hand"},
 		Floors:      map[string]int{"ctx_sinks": 600, "ctx_sinks_core": 40, "fresh_context_sites": 30, "stored_payload_emissions": 12},
-		Controls:    map[string]string{"zz_verif_controls_c09.go": roControl(controlsC09 + controlsC09b)},
+		Controls:    map[string]string{"zz_verif_controls_c09.go": roControl(controlsC09 + controlsC09b + controlsTerminalCtx + controlsCtxTupleWhole)},
 	}
 }
 
@@ -1175,3 +1176,339 @@ func reachesOnlySubscriberCtx(m *model.Model, p *packages.Package, e ast.Expr, a
 	}
 	return false
 }
+
+// SLOT-CTX-STABLE: a context parameter rebound on one branch must not leak into what follows the branch.
+func ruleSlotCtxStable() check.Rule {
+	return check.Rule{
+		Name: "SLOT-CTX-STABLE",
+		Doc:  "inside a callback of an operator, when the callback's own context parameter is re-bound from a call that is not a function of the context package (`ctx = contextOf(ctx)`, `ctx = project(ctx, v)` …) on some paths only, no notification reachable both through and around the re-binding carries that parameter: the context obtained for one notification (the fallback value's, the projected item's) would otherwise replace the received context of a later notification of the same invocation (the Complete that follows) depending on an unrelated branch, and values attached upstream are lost for it",
+		Run: func(c *check.Ctx) {
+			m := c.M
+			n := 0
+			for _, sc := range m.SCs {
+				armed := c.Armed(sc)
+				info := sc.Pkg.TypesInfo
+				var fns []*ast.FuncLit
+				ast.Inspect(sc.Lit, func(x ast.Node) bool {
+					if l, ok := x.(*ast.FuncLit); ok {
+						fns = append(fns, l)
+					}
+					return true
+				})
+				for _, fn := range fns {
+					params := map[types.Object]bool{}
+					if fn.Type.Params != nil {
+						for _, f := range fn.Type.Params.List {
+							for _, id := range f.Names {
+								if v, ok := info.Defs[id].(*types.Var); ok && model.IsContext(v.Type()) {
+									params[v] = true
+								}
+							}
+						}
+					}
+					if len(params) == 0 {
+						continue
+					}
+					ast.Inspect(fn.Body, func(x ast.Node) bool {
+						if l, ok := x.(*ast.FuncLit); ok && l != fn {
+							return false
+						}
+						as, ok := x.(*ast.AssignStmt)
+						if !ok || as.Tok == token.DEFINE {
+							return true
+						}
+						for i, l := range as.Lhs {
+							id, ok := l.(*ast.Ident)
+							if !ok || !params[objOf(info, id)] {
+								continue
+							}
+							if len(as.Rhs) == len(as.Lhs) {
+								if call, ok := ast.Unparen(as.Rhs[i]).(*ast.CallExpr); ok {
+									if cl := model.Callee(info, call); cl != nil && cl.Pkg() != nil && cl.Pkg().Path() == "context" {
+										continue // an enrichment of the same context
+									}
+								}
+							}
+							v := objOf(info, id)
+							isAs := func(nd ast.Node) bool { return nd.Pos() <= as.Pos() && as.End() <= nd.End() }
+							for _, e := range sc.Emits {
+								if !e.ToDest || e.CtxArg == nil || e.Pkg != sc.Pkg || innermostFunc(m, e.Pkg, e.Node) != ast.Node(fn) {
+									continue
+								}
+								rid, _ := rootIdent(e.CtxArg)
+								if rid == nil || objOf(info, rid) != v {
+									continue
+								}
+								if !reachableAfter(fn.Body, as, e.Node) {
+									continue
+								}
+								n++
+								key := fmt.Sprintf("%s/stable-ctx", e.Key)
+								if pathsPassBefore(fn.Body, e.Node, isAs) {
+									if armed {
+										c.OK(key, e.Pos, "every path to this notification re-binds the context parameter the same way")
+									}
+									continue
+								}
+								c.Report(armed, key, e.Pos, "this %s notification carries %s, which is re-bound at %s on some of the paths that reach it only: on those paths it gets the context obtained for another notification instead of the one this callback received", model.SlotNames[e.Kind], v.Name(), m.Prog.Rel(as.Pos()))
+							}
+						}
+						return true
+					})
+				}
+			}
+			c.Inc("rebound_ctx_uses", n)
+		},
+	}
+}
+
+// TERMINAL-CTX-CAPTURED: both terminal callbacks record the last context.
+func ruleTerminalCtxCaptured() check.Rule {
+	return check.Rule{
+		Name:        "TERMINAL-CTX-CAPTURED",
+		NeedControl: true,
+		Doc:         "sibling cross-check on every observer built from three literals: a context-typed variable of the enclosing function that one terminal callback (error / complete) assigns from its context parameter is assigned by the other terminal callback too, when the variable is declared without a value and read outside the callbacks (CollectWithContext returns it; a sort operator forwards it with the collected error): a stream that ends with an error otherwise hands the zero (nil) context on",
+		Run: func(c *check.Ctx) {
+			m := c.M
+			n := 0
+			for _, p := range m.Pkgs {
+				armed := c.ArmedPkg(p.PkgPath)
+				info := p.TypesInfo
+				for _, f := range p.Syntax {
+					ast.Inspect(f, func(x ast.Node) bool {
+						call, ok := x.(*ast.CallExpr)
+						if !ok || len(call.Args) != 3 {
+							return true
+						}
+						cl := model.Callee(info, call)
+						if cl == nil || cl.Pkg() == nil || cl.Pkg().Path() != "github.com/samber/ro" || cl.Name() != "NewObserverWithContext" {
+							return true
+						}
+						errLit, ok1 := ast.Unparen(call.Args[1]).(*ast.FuncLit)
+						cmpLit, ok2 := ast.Unparen(call.Args[2]).(*ast.FuncLit)
+						if !ok1 || !ok2 {
+							return true
+						}
+						captured := func(lit *ast.FuncLit) map[*types.Var]bool {
+							out := map[*types.Var]bool{}
+							var param types.Object
+							if lit.Type.Params != nil && len(lit.Type.Params.List) > 0 && len(lit.Type.Params.List[0].Names) > 0 {
+								param = info.Defs[lit.Type.Params.List[0].Names[0]]
+							}
+							ast.Inspect(lit.Body, func(y ast.Node) bool {
+								as, ok := y.(*ast.AssignStmt)
+								if !ok || as.Tok == token.DEFINE || len(as.Lhs) != len(as.Rhs) {
+									return true
+								}
+								for i, l := range as.Lhs {
+									id, ok := l.(*ast.Ident)
+									if !ok {
+										continue
+									}
+									v, ok := objOf(info, id).(*types.Var)
+									if !ok || !model.IsContext(v.Type()) || (v.Pos() >= lit.Pos() && v.Pos() < lit.End()) {
+										continue
+									}
+									if rid, ok := ast.Unparen(as.Rhs[i]).(*ast.Ident); ok && param != nil && objOf(info, rid) == param {
+										out[v] = true
+									}
+								}
+								return true
+							})
+							return out
+						}
+						ce, cc := captured(errLit), captured(cmpLit)
+						if len(ce) == 0 && len(cc) == 0 {
+							return true
+						}
+						cp := newCtxProvLite(m, p)
+						for _, pair := range []struct {
+							have, other map[*types.Var]bool
+							missing     *ast.FuncLit
+							name        string
+						}{{cc, ce, errLit, "error"}, {ce, cc, cmpLit, "complete"}} {
+							for v := range pair.have {
+								if !cp.zeroDeclared(v) || !cp.readOutside(v, call) {
+									continue
+								}
+								n++
+								key := fmt.Sprintf("%s/%s/captured-in-%s", chainKeyOf(m, p, call), v.Name(), pair.name)
+								if pair.other[v] {
+									if armed {
+										c.OK(key, pair.missing.Pos(), "both terminal callbacks record their context in "+v.Name())
+									}
+								} else {
+									c.Report(armed, key, pair.missing.Pos(), "the %s callback does not record its context in %s although the other terminal callback does and %s (declared without a value) is read after the stream ended: a stream that ends this way hands a nil context on", pair.name, v.Name(), v.Name())
+								}
+							}
+						}
+						return true
+					})
+				}
+			}
+			c.Inc("terminal_ctx_captures", n)
+		},
+	}
+}
+
+type ctxProvLite struct {
+	m *model.Model
+	p *packages.Package
+}
+
+func newCtxProvLite(m *model.Model, p *packages.Package) *ctxProvLite { return &ctxProvLite{m, p} }
+
+// zeroDeclared: `var v context.Context` without a value.
+func (cp *ctxProvLite) zeroDeclared(v *types.Var) bool {
+	found := false
+	for _, f := range cp.p.Syntax {
+		if f.Pos() <= v.Pos() && v.Pos() < f.End() {
+			ast.Inspect(f, func(x ast.Node) bool {
+				if vs, ok := x.(*ast.ValueSpec); ok && len(vs.Values) == 0 {
+					for _, id := range vs.Names {
+						if cp.p.TypesInfo.Defs[id] == types.Object(v) {
+							found = true
+						}
+					}
+				}
+				return !found
+			})
+		}
+	}
+	return found
+}
+
+// readOutside: v is read somewhere outside the observer construction call.
+func (cp *ctxProvLite) readOutside(v *types.Var, call *ast.CallExpr) bool {
+	info := cp.p.TypesInfo
+	found := false
+	for _, f := range cp.p.Syntax {
+		if f.Pos() <= v.Pos() && v.Pos() < f.End() {
+			ast.Inspect(f, func(x ast.Node) bool {
+				if as, ok := x.(*ast.AssignStmt); ok {
+					// the left-hand sides are writes
+					for _, r := range as.Rhs {
+						ast.Inspect(r, func(y ast.Node) bool {
+							if id, ok := y.(*ast.Ident); ok && info.Uses[id] == types.Object(v) && (id.Pos() < call.Pos() || id.Pos() >= call.End()) {
+								found = true
+							}
+							return true
+						})
+					}
+					for _, l := range as.Lhs {
+						if _, isId := l.(*ast.Ident); !isId {
+							ast.Inspect(l, func(y ast.Node) bool {
+								if id, ok := y.(*ast.Ident); ok && info.Uses[id] == types.Object(v) && (id.Pos() < call.Pos() || id.Pos() >= call.End()) {
+									found = true
+								}
+								return true
+							})
+						}
+					}
+					return false
+				}
+				if id, ok := x.(*ast.Ident); ok && info.Uses[id] == types.Object(v) && (id.Pos() < call.Pos() || id.Pos() >= call.End()) {
+					found = true
+				}
+				return true
+			})
+		}
+	}
+	return found
+}
+
+// chainKeyOf names the function chain that contains n.
+func chainKeyOf(m *model.Model, p *packages.Package, n ast.Node) string {
+	chain := m.EnclosingFuncs(p, n)
+	return chainKey(m, p, chain, scLits(m))
+}
+
+const controlsTerminalCtx = `
+func verifControlCollectCtx[T any](ctx context.Context, obs Observable[T]) context.Context {
+	var lastCtx context.Context
+	sub := obs.SubscribeWithContext(ctx, NewObserverWithContext(
+		func(ctx context.Context, value T) {},
+		func(_ context.Context, err error) {},
+		func(ctx context.Context) { lastCtx = ctx },
+	))
+	sub.Wait()
+	return lastCtx
+}
+`
+
+// CTX-TUPLE-WHOLE: a stored (context, value) pair is replaced as a whole.
+func ruleCtxTupleWhole() check.Rule {
+	return check.Rule{
+		Name:        "CTX-TUPLE-WHOLE",
+		NeedControl: true,
+		Doc:         "a stored lo.Tuple2[context.Context, T] (a buffer slot, a latest-value cell, an accumulator) is never updated by halves: an assignment to its value field .B is accompanied, in the same block, by an assignment to the context field .A of the same tuple (or the tuple is replaced as a whole): a slot whose value is refreshed while its context stays is later emitted with the context of an older notification",
+		Run: func(c *check.Ctx) {
+			m := c.M
+			scs := scLits(m)
+			n := 0
+			for _, p := range m.Pkgs {
+				armed := c.ArmedPkg(p.PkgPath)
+				info := p.TypesInfo
+				for _, f := range p.Syntax {
+					ast.Inspect(f, func(x ast.Node) bool {
+						blk, ok := x.(*ast.BlockStmt)
+						if !ok {
+							return true
+						}
+						// half writes in this block (direct statements only)
+						type hw struct {
+							tuple ast.Expr
+							field string
+							pos   token.Pos
+						}
+						var writes []hw
+						for _, st := range blk.List {
+							as, ok := st.(*ast.AssignStmt)
+							if !ok {
+								continue
+							}
+							for _, l := range as.Lhs {
+								sel, ok := ast.Unparen(l).(*ast.SelectorExpr)
+								if !ok || (sel.Sel.Name != "A" && sel.Sel.Name != "B") {
+									continue
+								}
+								if t := info.TypeOf(sel.X); t == nil || !isCtxTuple(t) {
+									continue
+								}
+								writes = append(writes, hw{sel.X, sel.Sel.Name, as.Pos()})
+							}
+						}
+						for i, w := range writes {
+							if w.field != "B" {
+								continue
+							}
+							n++
+							paired := false
+							for j, o := range writes {
+								if i != j && o.field == "A" && sameExpr(info, w.tuple, o.tuple) {
+									paired = true
+								}
+							}
+							key := fmt.Sprintf("%s/half-update#%d", chainKey(m, p, m.EnclosingFuncs(p, blk), scs), n)
+							if paired {
+								if armed {
+									c.OK(key, w.pos, "value and context of the stored pair are written together")
+								}
+							} else {
+								c.Report(armed, key, w.pos, "the value half of the stored (context, value) pair %s is replaced while its context half is kept: the pair is later emitted with the context of an older notification", types.ExprString(w.tuple))
+							}
+						}
+						return true
+					})
+				}
+			}
+			c.Inc("tuple_value_writes", n)
+		},
+	}
+}
+
+const controlsCtxTupleWhole = `
+func verifControlTupleHalf[T any](buffer []lo.Tuple2[context.Context, T], i int, ctx context.Context, v T) {
+	buffer[i].B = v
+}
+`
